@@ -33,6 +33,8 @@ def replay_strainsvec(res, scen, features, prop):
     p = common.run_harness(binp, ["strainsvec-replay", scen, outp])
     log(p.stdout.strip().splitlines()[-1])
     out = json.load(open(outp))
+    if out.get("degraded"):
+        res.cov["degraded"] = "StrainsVec's internal API changed in /repo: the direct replay of the model's scenarios was skipped for the [%s] build; the end-to-end parts still decide" % (features or "default")
     res.cov["traces_validated_against_impl"] += out["scenarios"]
     if not res.cov["samples"]:
         res.cov["samples"] = out["samples"]
